@@ -49,6 +49,18 @@ DEEPENING ROUND (theorems added, all closed):
   check_print_min (random model trees over the whole operator set: Coq checks Python mirror = Model.pm, the real parser
   through the stub reads the text back to norm e, real SymPy's value = eval e).
 
+SECOND DEEPENING ROUND
+  Gen/C16OpsGen.v: every arithmetic method of SymbolicDim (__add__ __sub__ __mul__ __floordiv__ __truediv__ __mod__,
+  __radd__ __rsub__ __rmul__ __rtruediv__, __neg__ __ceil__ __floor__ __trunc__) is TRANSLATED statement by statement
+  (fail closed: exact statement shape incl. the None guards and `return NotImplemented`; the set of arithmetic dunders
+  itself is pinned) into op_<m>_int / op_<m>_dim / op_<m>.  C16/Ops.v: btree (what the user applies) and to_expr
+  (Python's operand dispatch over the translated methods).  C16_operator_methods: each translated branch evaluates to
+  Python's arithmetic (Z.div / Z.modulo / exact quotient / operand order of the reflected forms / Z.quot ...).
+  The tree correspondence now sends BUILD TREES: Coq computes to_expr bt through the translated methods and compares
+  with the implementation (and with the harness's own to_model reading).  C16_function_table_exact: every key of
+  _ALLOWED_FUNCTIONS (both spellings) denotes the operator of its name.  Not done: a translation of the tokenizer
+  (state machine over self.pos with while loops) — it stays a hand model under the per-method AST digests + parser tie.
+
 TIE (measured every run, numbers in evidence/C16.json)
   (i)  parser: the REAL tokenizer/parser is run with the module global `sympy` (and the values of
        _ALLOWED_FUNCTIONS) rebound to a stub that records constructor calls; the recorded tree / raise is
